@@ -6,6 +6,10 @@ import os
 VERIF = os.path.dirname(os.path.dirname(os.path.abspath(__file__)))
 
 CLAIMED = {
+    "C03": dict(level="exploration", design="3/C03",
+                technique="deterministic simulation: seeded op/fault histories; differential XSD validation (vendored ISO 29500-4 transitional schemas, MCE preprocessing) of every changed XML part after every event",
+                text="Seeded search over operation histories (formatting-heavy swarm mix, rejected calls and source I/O faults as injected faults) from the default template and every corpus deck; after every event each changed XML part is validated differentially against the vendored schemas. Sampling, not proof.",
+                note="trusted: vendored XSDs, libxml2 validator, MCE preprocessing (sim/xsd.py); parts without a schema here are skipped and counted"),
     "C02": dict(level="exploration", design="3/C02",
                 technique="deterministic simulation: seeded op/fault histories with checkpoint-restart, storage fault injection in save and file reads, independent OPC reader + live-vs-reopened snapshot oracle, ddmin replay",
                 text="Seeded search over histories of public-API operations interleaved with saves, restarts, forks, clock jumps and injected storage faults; every acknowledged save is checked by an independent OPC reader (closure rules) and by re-opening and comparing a public-API snapshot. Sampling, not proof.",
